@@ -1046,4 +1046,220 @@ def check_C15(tier, seed):
                     extra_cov={"policies": CHECKED})
 
 
-CHECKS = {"C09": check_C09, "C15": check_C15, "C07": check_C07, "C10": check_C10, "C14": check_C14, "C04": check_C04, "C08": check_C08, "C01": check_C01, "C02": check_C02, "C03": check_C03, "C06": check_C06, "C17": check_C17}
+# ---------------------------------------------------------------------------
+def check_C18(tier, seed):
+    t0 = time.time()
+    out = F.Outcome("C18")
+    rng = random.Random(seed)
+    exe = C.build_simple("sl", "sl.cpp")
+    MOD, TCFG = "TraceStaticList.tla", "TraceStaticList.cfg"
+    # the whole reachable state space over 6 nodes, any history length (hist hidden by a VIEW)
+    F.model_check(out, "StaticList.tla", "StaticList_full6.cfg")
+    cfg = "StaticList_N3L6.cfg" if tier == "quick" else "StaticList_N4L7.cfg"
+    r = C.tlc_model("StaticList.tla", cfg)
+    out.model_states += r.generated
+    out.model_distinct += r.distinct
+    hs = r.printed()
+    out.model_runs.append({"module": "StaticList.tla", "cfg": cfg, "generated": r.generated, "distinct": r.distinct, "emitted": len(hs), "ok": r.ok})
+    if not r.ok:
+        raise F.ModelViolation("StaticList.tla", cfg, r.out)
+    clients = ["node", "class", "method", "definition"]
+
+    def body(h):
+        ls = []
+        for op in h:
+            ls.append({"push": "p %d", "remove": "r %d"}.get(op["op"], "c") % op["n"] if op["op"] != "clear" else "c")
+        return ls
+    scs = []
+    for i, h in enumerate(hs):
+        for cl in (clients if tier == "thorough" or i % 4 == 0 else ["node", clients[1 + i % 3]]):
+            scs.append(F.RawScript("h%d-%s" % (i, cl), body(h), cl))
+    F.execute_and_validate("C18", exe, scs, out, "c18-mc", TCFG, trace_module=MOD)
+    # V: long random sequences over 8 nodes
+    rs = []
+    for i in range(60 if tier == "quick" else 600):
+        inl, ls = [], []
+        for _ in range(rng.randrange(50, 400 if tier == "quick" else 3000)):
+            x = rng.random()
+            free = [n for n in range(1, 9) if n not in inl]
+            if free and (x < 0.5 or not inl):
+                n = rng.choice(free)
+                inl.append(n)
+                ls.append("p %d" % n)
+            elif x < 0.97:
+                # first, middle, last, only: whatever position the chosen node happens to have
+                n = rng.choice([inl[0], inl[-1], rng.choice(inl)])
+                inl.remove(n)
+                ls.append("r %d" % n)
+            else:
+                inl = []
+                ls.append("c")
+        rs.append(F.RawScript("rnd%d" % i, ls, rng.choice(clients)))
+    F.execute_and_validate("C18", exe, rs, out, "c18-rnd", TCFG, trace_module=MOD)
+
+    def swap_iter(ev):
+        if len(ev["iter"]) >= 2:
+            ev["iter"][0], ev["iter"][1] = ev["iter"][1], ev["iter"][0]
+            return True
+        return False
+
+    def break_link(ev):
+        if ev["links"] and ev["first"]:
+            ev["prev"][ev["first"] - 1] = 0
+            return True
+        return False
+    F.selftest_corruption(exe, rs[0], out, mutate_first("remove", swap_iter), "iteration order of a recorded catalog altered", TCFG, trace_module=MOD, must=False)
+    nodesc = [s for s in rs if s.header_extra == "node"][:1]
+    if nodesc:
+        F.selftest_corruption(exe, nodesc[0], out, mutate_first("push", break_link), "prev link of the first node altered in a recorded state", TCFG, trace_module=MOD)
+    out.need_selftest = True
+    return F.report("C18", tier, seed, out, t0, LEVEL,
+                    rule="a case = one sequence of push / remove / clear executed on a real static_list (instrumented node type exposing its links, "
+                         "or the library's own registration objects: class_declaration, method, definition_info with destructor-driven removal); "
+                         "after every operation iteration order, size(), empty() and the links must equal the specification's state; "
+                         "distinct_nontrivial = distinct (sequence, client) scripts",
+                    assumptions=["static_list nodes live in zero-initialised storage (as the static objects the library links do)",
+                                 "TLC 1.8.0"],
+                    extra_cov={"clients": clients})
+
+
+# ---------------------------------------------------------------------------
+def id_family(rng, kind, n):
+    M64 = (1 << 64) - 1
+    ids = set()
+    if kind == "clustered":        # type_info-like addresses: a base plus small multiples of 16/24/32
+        base = rng.randrange(1 << 40, 1 << 47) & ~0xF
+        stride = rng.choice([16, 24, 32, 40, 64])
+        while len(ids) < n:
+            ids.add(base + stride * rng.randrange(0, 4 * n + 4))
+    elif kind == "stride":         # regular strides
+        stride = 1 << rng.randrange(0, 40)
+        base = rng.randrange(0, 1 << 20)
+        ids = {(base + stride * i) & M64 for i in range(n)}
+    elif kind == "high":           # ids that differ only in high bits
+        low = rng.randrange(0, 1 << 16)
+        while len(ids) < n:
+            ids.add(((rng.randrange(0, 1 << 16) << 48) | low) & M64)
+    elif kind == "low":            # ids that differ only in low bits
+        high = rng.randrange(0, 1 << 40) << 24
+        while len(ids) < n:
+            ids.add(high | rng.randrange(0, 1 << 12))
+    elif kind == "small":
+        ids = set(rng.sample(range(0, 4 * n + 8), n))
+    else:                           # random 64-bit values
+        while len(ids) < n:
+            ids.add(rng.randrange(0, M64))
+    ids.discard(M64)                # invalid_type is not a type id
+    return sorted(ids)
+
+
+def hash_script(rng, sid, policy, tier):
+    M64 = (1 << 64) - 1
+    kind = rng.choice(["clustered", "clustered", "stride", "high", "low", "small", "random"])
+    big = 400 if tier == "thorough" else 120
+    n = rng.choice([0, 1, 2, 3, 5, 8, 13, 21, 40, 80, big])
+    if kind == "random":
+        n = min(n, 40)              # random 64-bit ids exhaust the search above a few dozen (allowed: reported)
+    pool = id_family(rng, kind, max(n, 1) * 2)
+    live = []
+    lines = []
+    removed = []
+    budget = rng.choice([0, 0, 0, 1, 2, 3, 5])
+    lines.append("b %d" % budget)
+    for upd in range(rng.randrange(1, 7)):
+        # grow / shrink
+        target = rng.randrange(0, n + 1) if upd else n
+        cand = [x for x in pool if x not in live]
+        rng.shuffle(cand)
+        while len(live) < target and cand:
+            x = cand.pop()
+            live.append(x)
+            lines.append("r %d" % x)
+        while len(live) > target:
+            x = live.pop(rng.randrange(len(live)))
+            removed.append(x)
+            lines.append("x %d" % x)
+        lines.append("u")
+        # look-ups: registered ids, neighbours, single bit flips, ids removed by an earlier update, random ids
+        probes = set()
+        for x in rng.sample(live, min(len(live), 12)):
+            probes.add(x)
+            probes.add((x + 1) & M64)
+            probes.add((x - 1) & M64)
+            probes.add(x ^ (1 << rng.randrange(64)))
+            probes.add((x + 16) & M64)
+        for x in removed[-6:]:
+            probes.add(x)
+        for _ in range(10):
+            probes.add(rng.randrange(0, M64))
+        probes.discard(M64)
+        for x in sorted(probes):
+            lines.append("l %d" % x)
+    return F.RawScript(sid, lines, policy)
+
+
+def check_C05(tier, seed):
+    t0 = time.time()
+    out = F.Outcome("C05")
+    rng = random.Random(seed)
+    exe = C.build_simple("hash", "hash.cpp")
+    MOD, TCFG = "TraceHash.tla", "TraceHash.cfg"
+    # mechanism model: every multiplier sequence, persistent max index across updates, budget exhaustion
+    F.model_check(out, "Hash.tla", "Hash_W4.cfg")
+    if tier == "thorough":
+        F.model_check(out, "Hash.tla", "Hash_W5.cfg", timeout=3000)
+    scs = []
+    pols = ["fast", "chk", "ind", "indfast"]
+    for i in range(240 if tier == "quick" else 4000):
+        scs.append(hash_script(rng, "h%d" % i, pols[i % 4] if i % 3 else rng.choice(["chk", "ind"]), tier))
+    F.execute_and_validate("C05", exe, scs, out, "c05", TCFG, trace_module=MOD)
+    counts = {"hashfail": 0, "unknown": 0, "ok": 0}
+    # re-run a sample to count what happened (coverage; not a verdict)
+    sp, tp = F.run_dyn(exe, "".join(s.text() for s in scs[:200]), "c05-count")
+    with open(tp) as f:
+        for ln in f:
+            if '"e":"hq"' in ln:
+                counts["hashfail" if '"res":"hashfail"' in ln else "ok"] += 1
+            elif '"res":"unknown"' in ln:
+                counts["unknown"] += 1
+    if counts["hashfail"] == 0 or counts["unknown"] == 0:
+        raise C.ToolFailure("vacuous: search exhaustion or unknown-id reports never occurred (%s)" % counts)
+
+    def collide(ev):
+        if ev.get("res") == "ok" and len(ev["rows"]) >= 2:
+            ev["rows"][0][1] = ev["rows"][1][1]
+            return True
+        return False
+
+    def out_of_range(ev):
+        if ev.get("res") == "ok" and ev["rows"]:
+            ev["rows"][0][1] = ev["size"]
+            return True
+        return False
+
+    def wrong_id(ev):
+        if ev.get("res") == "unknown":
+            ev["rid"] = str(int(ev["rid"]) + 1)
+            return True
+        return False
+    for mut, label in ((collide, "two registered ids given the same index in a recorded hash"),
+                       (out_of_range, "an index equal to the vector size in a recorded hash"),
+                       (wrong_id, "id carried by a recorded unknown-class report altered")):
+        for s in scs[:80]:
+            kind = "hl" if mut is wrong_id else "hq"
+            if F.selftest_corruption(exe, s, out, mutate_first(kind, mut), label, TCFG, trace_module=MOD, must=False):
+                break
+    out.need_selftest = True
+    return F.report("C05", tier, seed, out, t0, LEVEL,
+                    rule="a case = one history of 1-6 updates over one id family (clustered pointers, regular strides, high-bits-only, low-bits-only, "
+                         "small integers, random 64-bit; 0 to %d ids) under one hashed policy (fast / checked, direct / indirect) and one search budget: "
+                         "after each update every registered id's index, the vector size and the stored pointer are recorded (hash treated as an unknown "
+                         "function, contract PerfectOn) and unregistered ids (neighbours, bit flips, removed ids, random) are looked up under the checked "
+                         "policies; distinct_nontrivial = distinct scripts" % (400 if tier == "thorough" else 120),
+                    assumptions=["64-bit arithmetic of the hash is not modelled by TLC (32-bit integers): the W-bit model covers the search logic and its persistent state, "
+                                 "the real arithmetic is covered by validating the contract on recorded executions",
+                                 "the id UINTPTR_MAX (invalid_type, also the empty-bucket sentinel) is not a type id and is never generated"],
+                    extra_cov={"policies": pols, "sampled_outcomes": counts})
+
+
+CHECKS = {"C05": check_C05, "C18": check_C18, "C09": check_C09, "C15": check_C15, "C07": check_C07, "C10": check_C10, "C14": check_C14, "C04": check_C04, "C08": check_C08, "C01": check_C01, "C02": check_C02, "C03": check_C03, "C06": check_C06, "C17": check_C17}
